@@ -1343,6 +1343,9 @@ class UnitQuaternion(Quaternion):
         v = base.getvector(v, 3)
         base.isscalar(theta)
         theta = base.getunit(theta, unit)
+        n = base.norm(v)
+        if n > 0:
+            v = v / n  # rotation axis is the direction of v
         return cls(s=math.cos(theta / 2), v=math.sin(theta / 2) * v, norm=False, check=False)
 
     @classmethod
